@@ -20,6 +20,7 @@ import (
 	"unsafe"
 
 	"github.com/anishathalye/porcupine"
+	"github.com/bartventer/httpcache/store/memcache"
 	"pgregory.net/rapid"
 
 	"github.com/bartventer/httpcache"
@@ -45,6 +46,10 @@ type c15Case struct {
 	// conc
 	Threads [][]c15Op `json:"threads,omitempty"`
 	Rounds  int       `json:"rounds,omitempty"`
+	// conc: Mem = the memory backend instead of the file system; Handles > 1 = that many
+	// handles opened on the same directory, threads spread over them
+	Mem     bool `json:"mem,omitempty"`
+	Handles int  `json:"handles,omitempty"`
 	// loopkill
 	DelayUs int `json:"delay_us,omitempty"`
 	// timeout: the backend's operation timeout in nanoseconds
@@ -530,15 +535,26 @@ type c15Event struct {
 	ret   int64
 	found bool
 	bad   string
+	// delete: 1 = reported success, 2 = reported that the key does not exist, 0 = another error
+	del int
 }
 
 func execC15Conc(c c15Case, r *oracle.Result) (*oracle.Result, string) {
 	dir := c15TempDir(false)
 	defer os.RemoveAll(dir)
-	conn, err := c15Open(dir, c.Enc)
-	if err != nil {
-		return r, err.Error()
+	var conns []driver.Conn
+	if c.Mem {
+		conns = append(conns, memcache.Open())
+	} else {
+		for h := 0; h < max(c.Handles, 1); h++ {
+			cn, err := c15Open(dir, c.Enc)
+			if err != nil {
+				return r, err.Error()
+			}
+			conns = append(conns, cn)
+		}
 	}
+	conn := conns[0]
 	keys := []string{"http://a.test/conc#0", "http://a.test/conc"}
 	rounds := max(c.Rounds, 1)
 	for round := 0; round < rounds; round++ {
@@ -577,6 +593,7 @@ func execC15Conc(c c15Case, r *oracle.Result) (*oracle.Result, string) {
 			wg.Add(1)
 			go func(ti int, th []c15Op) {
 				defer wg.Done()
+				conn := conns[ti%len(conns)]
 				<-start
 				for oi, op := range th {
 					ev := c15Event{op: op.Op, key: op.Key % len(keys)}
@@ -603,7 +620,12 @@ func execC15Conc(c c15Case, r *oracle.Result) (*oracle.Result, string) {
 							ev.found = false
 						}
 					case "delete":
-						_ = conn.Delete(k)
+						switch err := conn.Delete(k); {
+						case err == nil:
+							ev.del = 1
+						case errors.Is(err, driver.ErrNotExist):
+							ev.del = 2
+						}
 					}
 					ev.ret = int64(time.Since(t0))
 					mu.Lock()
@@ -640,6 +662,7 @@ func execC15Conc(c c15Case, r *oracle.Result) (*oracle.Result, string) {
 		type out struct {
 			val   int
 			found bool
+			del   int
 		}
 		model := porcupine.Model{
 			Init: func() any { return 0 },
@@ -649,6 +672,14 @@ func execC15Conc(c c15Case, r *oracle.Result) (*oracle.Result, string) {
 				case "set":
 					return true, i.val
 				case "delete":
+					// a Delete that reports success removed something; one that reports "does not
+					// exist" found nothing (any other error: no claim)
+					switch output.(out).del {
+					case 1:
+						return state.(int) != 0, 0
+					case 2:
+						return state.(int) == 0, 0
+					}
 					return true, 0
 				}
 				o := output.(out)
@@ -665,10 +696,10 @@ func execC15Conc(c c15Case, r *oracle.Result) (*oracle.Result, string) {
 				if ev.key != ki {
 					continue
 				}
-				ops = append(ops, porcupine.Operation{ClientId: i, Input: in{ev.op, ev.val}, Call: ev.call, Output: out{ev.val, ev.found}, Return: ev.ret})
+				ops = append(ops, porcupine.Operation{ClientId: i, Input: in{ev.op, ev.val}, Call: ev.call, Output: out{ev.val, ev.found, ev.del}, Return: ev.ret})
 			}
 			if res := porcupine.CheckOperationsTimeout(model, ops, 5*time.Second); res == porcupine.Illegal {
-				r.Fail("C15", "not-linearisable", round, "enc=%v round %d: the Set/Get/Delete history of key %q is not linearisable as a register (%d operations)", c.Enc, round, keys[ki], len(ops))
+				r.Fail("C15", "not-linearisable", round, "enc=%v mem=%v handles=%d round %d: the Set/Get/Delete history of key %q (results of Delete included) is not linearisable as a register (%d operations)", c.Enc, c.Mem, len(conns), round, keys[ki], len(ops))
 				return r, ""
 			}
 		}
@@ -809,12 +840,35 @@ func TestC15Conc(t *testing.T) {
 	c.Gen = func(rt *rapid.T) *world.Scenario {
 		nth := rapid.IntRange(2, 8).Draw(rt, "threads")
 		cs := c15Case{Kind: "conc", Enc: gen.Pct(rt, "enc", 30), Seed: uint64(rapid.IntRange(1, 1<<20).Draw(rt, "seed")), Rounds: 3}
+		switch gen.Weighted(rt, "store", 60, 20, 20) {
+		case 1:
+			cs.Mem, cs.Enc = true, false
+		case 2:
+			cs.Handles = gen.Pick(rt, "handles", 2, 2, 3)
+		}
+		if gen.Pct(rt, "deletestorm", 15) {
+			// every thread writes and deletes the same key, over and over: of the Deletes that
+			// follow one Set at most one may report success
+			nth = rapid.IntRange(4, 12).Draw(rt, "stormthreads")
+			for ti := 0; ti < nth; ti++ {
+				var th []c15Op
+				for oi := 0; oi < 4; oi++ {
+					if ti == 0 {
+						th = append(th, c15Op{Op: "set", Len: 10})
+					}
+					th = append(th, c15Op{Op: "delete"})
+				}
+				cs.Threads = append(cs.Threads, th)
+			}
+			cs.Rounds = 6
+			return mkC15(cs)
+		}
 		for ti := 0; ti < nth; ti++ {
 			n := rapid.IntRange(1, 6).Draw(rt, fmt.Sprintf("n%d", ti))
 			var th []c15Op
 			for oi := 0; oi < n; oi++ {
 				lbl := fmt.Sprintf("t%d-%d", ti, oi)
-				op := c15Op{Op: []string{"set", "get", "delete"}[gen.Weighted(rt, lbl+"-op", 45, 45, 10)], Key: gen.Weighted(rt, lbl+"-key", 80, 20)}
+				op := c15Op{Op: []string{"set", "get", "delete"}[gen.Weighted(rt, lbl+"-op", 42, 40, 18)], Key: gen.Weighted(rt, lbl+"-key", 80, 20)}
 				if op.Op == "set" {
 					op.Len = gen.Pick(rt, lbl+"-len", 0, 10, 4096, 65536, 300000, 300000)
 				}
